@@ -66,6 +66,10 @@ class JSONFormatter(Formatter):
             element["description"] = feature.description
 
     def background(self, background):
+        # -- ENSURE: Status of the last scenario is stored in its own element
+        #    before a (Rule) background element is added to this feature.
+        self.finish_current_scenario()
+        self.current_scenario = None
         element = self.add_feature_element({
             "type": "background",
             "keyword": background.keyword,
